@@ -248,7 +248,7 @@ def wl_counting(ctx, rng, case):
         bl.noise_reads(ctx, rng, f, keys)
         r = rng.random()
         kk = rng.choice(keys)
-        if big and kind == "CountingBloomFilter" and r >= 0.6:
+        if big and kind == "CountingBloomFilter" and 0.6 <= r < 0.85:
             continue  # with cells at the limit only additions keep the simple meaning for the counting Bloom filter
         if r < 0.6 or kind == "HeavyHitters" and r < 0.85:
             n = rng.choice([1, 1, 2, 5, 40]) if not big else rng.choice([1, 3 * 10**8, 2**31 - 1, 2**31, 2**32 - 1, 2**32 + 5, 7])
@@ -298,6 +298,24 @@ def wl_counting(ctx, rng, case):
             out[k2] += n2
             case.op("join", k2, n2)
             ctx.count("joins")
+        elif kind == "CountingBloomFilter":
+            # union / intersection with a second counting filter: the result's element count is the estimate of the result's own cells
+            # (in the histories with amounts at the cell limits the sums of some counters pass 2^32-1 and are pinned there)
+            g = mk2()
+            for k2 in rng.sample(keys, rng.randint(0, min(4, len(keys)))):
+                g.add(k2, rng.choice([1, 2, 9]) if not big else rng.choice([1, 2**31, 2**32 - 1, 2**32 - 1, 3 * 10**9]))
+            op = rng.choice(["union", "union", "intersection"])
+            res = getattr(f, op)(g)
+            case.op(op)
+            X = popcount_cells(res, True)
+            cand = estimate_candidates(m, k, X)
+            if cand is not None:
+                ctx.check(res.elements_added in cand, f"element count of a counting {op} result is not the estimate of its own counters in use (step {step})",
+                          got=res.elements_added, want=sorted(cand), cells_in_use=X)
+                check_stats(ctx, res, f"(result of a counting {op}, step {step})", counting=True)
+                ctx.count("counting_set_operation_count_checks")
+                if max(bl.cells_of(res)) >= 2**32 - 1:
+                    ctx.count("counting_set_operation_results_with_pinned_counters")
         else:
             continue
         total = sum(out.values()) - eaten
@@ -493,5 +511,6 @@ PROP = Prop(
                  "a completely set array (documented sentinel -1) is outside the formula and skipped",
                  ],
     required=["counter_checks", "statistics_checks", "set_operation_count_checks", "ondisk_reopens", "joins", "cuckoo.decisions_taken", "cuckoo.capacity_changes",
-              "cuckoo.reloads", "cuckoo.failed_expansions_or_inserts", "quotient.histories_with_removals", "quotient.merges", "aliasing_checks"],
+              "cuckoo.reloads", "cuckoo.failed_expansions_or_inserts", "quotient.histories_with_removals", "quotient.merges", "aliasing_checks",
+              "counting_set_operation_count_checks", "counting_set_operation_results_with_pinned_counters"],
 )
